@@ -38,6 +38,7 @@ type Case struct {
 	LeanIn  string            `json:"lean_in,omitempty"`
 	LeanOut string            `json:"lean_out,omitempty"`
 	Detail  string            `json:"detail,omitempty"`
+	baseRef *Case
 }
 
 func hx(b []byte) string {
